@@ -21,11 +21,19 @@ struct zstd_verif_ghost_s {
     unsigned long long io_pos;            /* ghost file position maintained by the fwrite / fseek stubs */
     size_t   io_k;                        /* ghost byte index into the buffer handed to the sparse writer (chosen by the harness) */
     int      io_covered;                  /* that byte has been passed to fwrite */
+    unsigned long long frames_bytes;      /* input bytes consumed by frames the frame decoder accepted (its contract's ghost effect) */
+    unsigned long long frames_out;        /* output bytes those frames regenerated */
+    unsigned long long skipped_bytes;     /* input bytes skipped as skippable frames by ZSTD_decompressMultiFrame */
     size_t   cell_idx;                    /* ghost cell of a table-transforming loop: index chosen by the harness, */
     unsigned cell_old, cell_new;          /* its value before the loop and the value the specification gives it   */
 };
 extern struct zstd_verif_ghost_s zstd_verif_ghost;
 #define ZSTD_VERIF_GHOST_FRAME __CPROVER_object_whole(&zstd_verif_ghost)
+/* A pointer havocked by a loop contract may, for CBMC's symbolic execution, point to ANY address-taken object of the
+ * program (the invariant's same_object fact does not narrow its points-to set), so every access through it fans out over
+ * all objects. Re-deriving it from its base is the identity when the invariant holds (the subtraction is checked) and
+ * narrows the points-to set to the base's object. Expands to nothing in a normal build. */
+#define ZSTD_VERIF_REBASE(p, base) (p) = (base) + ((p) - (base))
 /* "the ghost cell already has its new value iff the loop has passed it" — lets a loop contract carry a
  * per-element postcondition without quantifiers (the harness quantifies by choosing cell_idx freely) */
 #define ZSTD_VERIF_GHOST_CELL_INV(table, size, done) \
@@ -109,4 +117,31 @@ void zstd_verif_pool_dequeued(void* ctx, void* opaque);
 #define ZSTD_VERIF_POOL_WORKERLOOP(c) \
     __CPROVER_assigns(ZSTD_VERIF_POOL_FRAME(c)) \
     __CPROVER_loop_invariant(zstd_verif_monitor.held == 0 && zstd_verif_monitor.pending_call == 0)
+/* ---- one-shot frame decoder (lib/decompress/zstd_decompress.c, ZSTD_decompressFrame) ----
+ * block loop: the input cursor and the remaining size account for exactly the bytes parsed so far, the output
+ * cursor stays inside dst, and (when the checksum is validated) every regenerated byte has been hashed.
+ * Frame: nothing of the context changes in this loop (the hash state lives in the ghost; the block-level fields
+ * written by the block decoder are abstracted away by its contract, see units/c09_decompress_frame.c). */
+#define ZSTD_VERIF_DFRAME_LOOP(d, ip, istart, op, ostart, remaining, total, cap) \
+    __CPROVER_assigns(ip, remaining, op, ZSTD_VERIF_GHOST_FRAME, __CPROVER_object_whole(ostart)) \
+    __CPROVER_loop_invariant((remaining) <= (total) && (total) - (remaining) >= (d)->fParams.headerSize && __CPROVER_same_object(ip, istart) \
+        && (size_t)(__CPROVER_POINTER_OFFSET(ip) - __CPROVER_POINTER_OFFSET(istart)) == (total) - (remaining) \
+        && __CPROVER_same_object(op, ostart) && __CPROVER_POINTER_OFFSET(op) >= __CPROVER_POINTER_OFFSET(ostart) \
+        && (size_t)(__CPROVER_POINTER_OFFSET(op) - __CPROVER_POINTER_OFFSET(ostart)) <= (cap) \
+        && (!(d)->validateChecksum || zstd_verif_ghost.xxh_bytes == (size_t)(__CPROVER_POINTER_OFFSET(op) - __CPROVER_POINTER_OFFSET(ostart)))) \
+    __CPROVER_decreases(remaining)
+
+/* ---- one-shot multi-frame decoder (ZSTD_decompressMultiFrame): the cursors account for every byte walked so far,
+ * and every walked byte belongs to an accepted frame or to a skippable frame (ghost totals). */
+#define ZSTD_VERIF_MULTIFRAME_LOOP(src, src0, srcSize, srcSize0, dst, dst0, cap, cap0, more) \
+    __CPROVER_assigns(src, srcSize, dst, cap, more, ZSTD_VERIF_GHOST_FRAME, __CPROVER_object_whole(dst0)) \
+    __CPROVER_loop_invariant((srcSize) <= (srcSize0) && __CPROVER_same_object(src, src0) \
+        && (size_t)(__CPROVER_POINTER_OFFSET(src) - __CPROVER_POINTER_OFFSET(src0)) == (srcSize0) - (srcSize) \
+        && (cap) <= (cap0) && __CPROVER_same_object(dst, dst0) \
+        && (size_t)(__CPROVER_POINTER_OFFSET(dst) - __CPROVER_POINTER_OFFSET(dst0)) == (cap0) - (cap) \
+        && zstd_verif_ghost.frames_bytes + zstd_verif_ghost.skipped_bytes == (srcSize0) - (srcSize) \
+        && zstd_verif_ghost.frames_out == (cap0) - (cap) \
+        && ((more) == 0 || (more) == 1)) \
+    __CPROVER_decreases(srcSize)
+
 #endif
